@@ -116,9 +116,15 @@ Definition jump_or_die (st : mstate) : mout :=
   | [] => MDied (obj st) (msg st)
   end.
 
+(* print_to_with(e->msg, 0, fmt, args): the message is written over the old one from position 0 —
+   but an EMPTY format writes nothing at all (the loop of print_to_with ends at once), so the
+   record keeps the message of the previous throw.  Observed on the real library; the property
+   does not speak about messages, the model follows the code. *)
+Definition set_msg (m old : nat) : nat := if m =? 0 then old else m.
+
 (* var exception_throw(var obj, const char* fmt, var args) *)
 Definition exception_throw (k m : nat) (st : mstate) : mstate * mout :=
-  let st' := MS (Some k) m (bufs st) (active st) in
+  let st' := MS (Some k) (set_msg m (msg st)) (bufs st) (active st) in
   (st', jump_or_die st').
 
 (* "If no Arguments catch all", otherwise eq(get(args, $I(i)), e->obj) for some i < len(args).
@@ -202,27 +208,30 @@ End Machine.
 
 Inductive rres : Type := RNormal | RRaised (k m : nat).
 
-(* Structured semantics; [d] = number of try bodies around the current point. *)
-Fixpoint ref_run (d : nat) (p : prog) : list event * rres :=
+(* Structured semantics; [d] = number of try bodies around the current point; [c] = the message the
+   thread's record holds when the construct starts.  The third component of the result is the
+   message held when it ends (for [RRaised k m] that is m).  The message register is the only state:
+   it is needed because a throw with the empty format keeps the previous message. *)
+Fixpoint ref_run (d : nat) (c : nat) (p : prog) : list event * rres * nat :=
   match p with
-  | PSkip => ([], RNormal)
-  | PTick n => ([ETick n d], RNormal)
+  | PSkip => ([], RNormal, c)
+  | PTick n => ([ETick n d], RNormal, c)
   | PSeq p q =>
-      let '(t1, r1) := ref_run d p in
+      let '(t1, r1, c1) := ref_run d c p in
       match r1 with
-      | RNormal => let '(t2, r2) := ref_run d q in (t1 ++ t2, r2)
-      | RRaised k m => (t1, RRaised k m)
+      | RNormal => let '(t2, r2, c2) := ref_run d c1 q in (t1 ++ t2, r2, c2)
+      | RRaised k m => (t1, RRaised k m, c1)
       end
-  | PThrow k m => ([], RRaised k m)
-  | PCall p => ref_run d p
+  | PThrow k m => ([], RRaised k (set_msg m c), set_msg m c)
+  | PCall p => ref_run d c p
   | PTry b fs h =>
-      let '(t1, r1) := ref_run (S d) b in
+      let '(t1, r1, c1) := ref_run (S d) c b in
       match r1 with
-      | RNormal => (t1, RNormal)
+      | RNormal => (t1, RNormal, c1)
       | RRaised k m =>
           if matches fs k
-          then let '(t2, r2) := ref_run d h in (t1 ++ EHandler k m d :: t2, r2)
-          else (t1, RRaised k m)
+          then let '(t2, r2, c2) := ref_run d c1 h in (t1 ++ EHandler k m d :: t2, r2, c2)
+          else (t1, RRaised k m, c1)
       end
   end.
 
@@ -281,23 +290,23 @@ Definition accepts (fs : list nat) (o : nat) : Prop :=      (* empty filter, or 
 Definition rejects (fs : list nat) (o : nat) : Prop :=
   fs <> [] /\ forall f, In f fs -> kind_of f <> kind_of o.
 
-Inductive eval : nat -> prog -> list event -> rres -> Prop :=
-| EvSkip : forall d, eval d PSkip [] RNormal
-| EvTick : forall d n, eval d (PTick n) [ETick n d] RNormal
-| EvSeqNormal : forall d p q t1 t2 r,
-    eval d p t1 RNormal -> eval d q t2 r -> eval d (PSeq p q) (t1 ++ t2) r
-| EvSeqRaised : forall d p q t1 k m,
-    eval d p t1 (RRaised k m) -> eval d (PSeq p q) t1 (RRaised k m)
-| EvThrow : forall d k m, eval d (PThrow k m) [] (RRaised k m)
-| EvCall : forall d p t r, eval d p t r -> eval d (PCall p) t r
-| EvTryNormal : forall d b fs h t,            (* nothing reaches this block: the handler stays out *)
-    eval (S d) b t RNormal -> eval d (PTry b fs h) t RNormal
-| EvTryHandled : forall d b fs h t1 k m t2 r, (* the body let k escape and the filter accepts it *)
-    eval (S d) b t1 (RRaised k m) -> accepts fs k ->
-    eval d h t2 r -> eval d (PTry b fs h) (t1 ++ EHandler k m d :: t2) r
-| EvTryPassed : forall d b fs h t1 k m,       (* the filter does not accept k: outwards, untouched *)
-    eval (S d) b t1 (RRaised k m) -> rejects fs k ->
-    eval d (PTry b fs h) t1 (RRaised k m).
+Inductive eval : nat -> nat -> prog -> list event -> rres -> nat -> Prop :=
+| EvSkip : forall d c, eval d c PSkip [] RNormal c
+| EvTick : forall d c n, eval d c (PTick n) [ETick n d] RNormal c
+| EvSeqNormal : forall d c p q t1 c1 t2 r c2,
+    eval d c p t1 RNormal c1 -> eval d c1 q t2 r c2 -> eval d c (PSeq p q) (t1 ++ t2) r c2
+| EvSeqRaised : forall d c p q t1 k m c1,
+    eval d c p t1 (RRaised k m) c1 -> eval d c (PSeq p q) t1 (RRaised k m) c1
+| EvThrow : forall d c k m, eval d c (PThrow k m) [] (RRaised k (set_msg m c)) (set_msg m c)
+| EvCall : forall d c p t r c', eval d c p t r c' -> eval d c (PCall p) t r c'
+| EvTryNormal : forall d c b fs h t c1,        (* nothing reaches this block: the handler stays out *)
+    eval (S d) c b t RNormal c1 -> eval d c (PTry b fs h) t RNormal c1
+| EvTryHandled : forall d c b fs h t1 k m c1 t2 r c2, (* the body let k escape and the filter accepts it *)
+    eval (S d) c b t1 (RRaised k m) c1 -> accepts fs k ->
+    eval d c1 h t2 r c2 -> eval d c (PTry b fs h) (t1 ++ EHandler k m d :: t2) r c2
+| EvTryPassed : forall d c b fs h t1 k m c1,   (* the filter does not accept k: outwards, untouched *)
+    eval (S d) c b t1 (RRaised k m) c1 -> rejects fs k ->
+    eval d c (PTry b fs h) t1 (RRaised k m) c1.
 
 (* [chain levels p]: p wrapped in try blocks, innermost first: levels = [(fs1,h1); (fs2,h2); ..]
    gives  try { try { p } catch (fs1) { h1 } } catch (fs2) { h2 } ... *)
